@@ -178,6 +178,74 @@ fn c01_gen_edge(seed: u64, run: u64, thorough: bool) -> Plan {
     }
     plan
 }
+/// A sender whose packet window is larger than the receiver's: it runs ahead of the receive
+/// window, and what arrives from beyond it has to be refused, not filed under an older packet.
+fn c01_gen_mismatch(seed: u64, run: u64, thorough: bool) -> Plan {
+    let mut r = Rng::keyed(&[seed, run, 0xc01f]);
+    let horizon = r.range(8, if thorough { 50 } else { 25 }) * 1_000_000;
+    let sc = AScenario {
+        near_wrap: run % 2 == 0,
+        small_windows: true,
+        packets: r.range(150, if thorough { 2000 } else { 700 }),
+        send_window_us: horizon / 2,
+        fault_until_us: horizon,
+        horizon_us: horizon,
+        allow_flips: false,
+        allow_stalls: false,
+        phases: 1,
+    };
+    let mut plan = world_a_general("C01", "a_window_mismatch", seed, run, &sc, false);
+    let mut rx = [0u32; 2];
+    for i in 0..2 {
+        let k = r.range(3, 8);
+        let tx = 1u32 << k;
+        rx[i] = tx >> r.range(1, 3);
+        if let EndpointKind::Hc { spec, .. } = &mut plan.endpoints[i].kind {
+            spec.tx_packet_window_size = tx;
+            spec.tx_frame_window_size = spec.tx_frame_window_size.max(64);
+            spec.rx_frame_window_size = spec.rx_frame_window_size.max(64);
+            spec.tx_bandwidth_limit = spec.tx_bandwidth_limit.max(200_000);
+            spec.tx_alloc_limit = spec.tx_alloc_limit.max(100_000);
+            spec.rx_alloc_limit = spec.rx_alloc_limit.max(100_000);
+        }
+    }
+    for i in 0..2 {
+        if let EndpointKind::Hc { spec, .. } = &mut plan.endpoints[1 - i].kind {
+            spec.rx_packet_window_size = rx[i];
+        }
+    }
+    // equally sized packets of two or three fragments on few channels in half of the runs (a
+    // fragment from beyond the window then fits the shape of the packet the slot is waiting for)
+    let same = if r.chance(0.5) { Some((r.range(1, 3) * FRAG + r.range(1, FRAG - 1)) as u32) } else { None };
+    let chans = r.range(1, 3) as u8;
+    for t in plan.timeline.iter_mut() {
+        match &mut t.op {
+            Op::Send { ch, mode, len, .. } => {
+                if *len >= 12 {
+                    *ch %= chans;
+                    *mode = *r.pick(&[MODE_UNRELIABLE, MODE_UNRELIABLE, MODE_PERSISTENT, MODE_RELIABLE]);
+                    *len = same.unwrap_or((*len).min(4000));
+                }
+            }
+            Op::Link { rule, .. } => {
+                rule.drop_p = *r.pick(&[0.05, 0.1, 0.2, 0.3]);
+                rule.blackout = false;
+                rule.drop_types = 0;
+                rule.latency_us = rule.latency_us.min(30_000);
+            }
+            _ => (),
+        }
+    }
+    plan.params.insert("short_ch".into(), (plan.param("short_ch", 0.0) as u8 % chans) as f64);
+    for t in plan.timeline.iter_mut() {
+        if let Op::Send { ch, len, .. } = &mut t.op {
+            if *len < 12 {
+                *ch = plan.params["short_ch"] as u8;
+            }
+        }
+    }
+    plan
+}
 fn c01_gen_b(seed: u64, run: u64, thorough: bool) -> Plan {
     let mut r = Rng::keyed(&[seed, run, 0xb01]);
     let horizon = r.range(8, if thorough { 60 } else { 30 }) * 1_000_000;
@@ -256,6 +324,8 @@ pub fn c01() -> CheckDef {
                 what: "same, window sizes 1..64 so that windows fill and resynchronise constantly" },
             Family { name: "a_window_edge", world: "A", weight: 600, gen: c01_gen_edge, oracles: c01_oracles, adversary: None, keep_workload: false, custom: None,
                 what: "packet windows of 2-16, two or three channels, mostly Persistent/Reliable packets, 10-30 % loss: the window is full most of the time and channels deliver and skip around a missing Reliable packet" },
+            Family { name: "a_window_mismatch", world: "A", weight: 300, gen: c01_gen_mismatch, oracles: c01_oracles, adversary: None, keep_workload: false, custom: None,
+                what: "the sender's packet window (8-256) is 2-8 times the receiver's: the sender runs ahead of the receive window under 5-30 % loss, one to three channels, in half of the runs equally sized packets of two or three fragments; what arrives from beyond the window has to be refused (HalfConnection accepts the two sizes independently; Client and Server always use 4096/4096)" },
             Family { name: "b_mixed", world: "B", weight: 400, gen: c01_gen_b, oracles: c01_oracles, adversary: None, keep_workload: false, custom: None,
                 what: "real Client/Server over the simulated socket, 1-3 clients, both directions, default windows, handshake nonces steered to within 6000 of the 2^32 / 2^20 wrap-around in half of the runs, drop/dup/reorder/flips" },
         ],
@@ -269,7 +339,7 @@ pub fn c01() -> CheckDef {
         assumptions: vec![
             "sampling, not proof: a clean batch bounds the probability of defects of the sampled kinds",
             "packets shorter than 12 bytes cannot carry a tag; they travel on one designated channel per run and are matched greedily (sound, may miss a duplicate of an identical short packet)",
-            "corruption beyond 4 bit flips is not injected here (the CRC gives no guarantee there)",
+            "corruption beyond 4 bit flips (5-40 flipped bits, truncation) is injected in a minority of runs; a damaged copy that would still pass the 32-bit CRC (one in 2^32) is withheld by the harness, since the CRC gives no guarantee there",
         ],
     }
 }
@@ -545,6 +615,8 @@ pub fn c03() -> CheckDef {
         families: vec![
             Family { name: "a_hostile_peer", world: "A", weight: 5, gen: c03_gen_hostile_peer, oracles: states_only, adversary: Some(c03_adv_peer), keep_workload: false, custom: None,
                 what: "victim half connection vs a connected hostile peer: CRC-valid data/sync/ack frames with boundary, near-valid (computed from the victim's own frames) and random fields, fragment counts up to 65535, handshake/disconnect frames, random bytes, replays; interleaved with send/step/flush at arbitrary times incl. 0 us spacing" },
+            Family { name: "u_feedback", world: "U", weight: 2, gen: c03_gen_u, oracles: states_only, adversary: None, keep_workload: false, custom: None,
+                what: "the rate computer alone, as in C14: every sequence of acknowledgements amounts to some sequence of feedback reports (RTT samples 0..60 s, receive rates 0..2^32-1, loss rates 0..1, gaps 0 ms..10 min, ceilings 0..2^32-1); step() has to return" },
             Family { name: "a_hostile_mitm", world: "A", weight: 3, gen: c03_gen_mitm, oracles: states_only, adversary: Some(c03_adv_mitm), keep_workload: false, custom: None,
                 what: "genuine pair under faults plus a hostile middlebox injecting crafted frames at both ends" },
             Family { name: "b_connected_attacker", world: "B", weight: 3, gen: c03_gen_b, oracles: c03_oracles_b, adversary: Some(c03_adv_b), keep_workload: true, custom: Some(twin_events_run),
@@ -1285,10 +1357,19 @@ pub fn c13() -> CheckDef {
 
 /// World U: the rate computer alone against arbitrary feedback histories.
 fn c14_gen_u(seed: u64, run: u64, thorough: bool) -> Plan {
+    gen_u("C14", seed, run, thorough)
+}
+/// The same histories under C03: whatever acknowledgements a peer sends amount to some sequence
+/// of feedback reports; none may keep step() from returning (ceilings there also include what a
+/// hostile handshake can advertise: 0, 1, 22, 23).
+fn c03_gen_u(seed: u64, run: u64, thorough: bool) -> Plan {
+    gen_u("C03", seed, run, thorough)
+}
+fn gen_u(property: &'static str, seed: u64, run: u64, thorough: bool) -> Plan {
     let mut r = Rng::keyed(&[seed, run, 0xc14]);
-    let mut plan = Plan::new("C14", "u_feedback", seed, run);
+    let mut plan = Plan::new(property, "u_feedback", seed, run);
     let ceiling = match r.below(5) {
-        0 => 1472,
+        0 => if property == "C03" { *r.pick(&[0u32, 1, 22, 23, 100, 1472]) } else { 1472 },
         1 => r.log_range(1472, 100_000) as u32,
         2 => 2_000_000,
         3 => r.log_range(100_000, 4_000_000_000) as u32,
